@@ -19,14 +19,20 @@ ID = "C10"
 UNSET = "<unset>"
 
 NAMES = ["c", "al", "ad", "l", "d", "s", "fac", "dyn", "t", "u", "inst", "ts", "td", "us", "tn",
-         "ps", "cn", "sh"]
+         "ps", "cn", "sh", "kid"]
 
 DYN = types.ModuleType("simtraits.dyn")
 sys.modules["simtraits.dyn"] = DYN
 
 
+class KidMarker:
+    """Stands for 'an instance of the Kid class' in declared defaults."""
+
+
 def plain(v):
     """Structural snapshot of a value (container wrappers removed)."""
+    if isinstance(v, KidMarker) or type(v).__name__ == "Kid":
+        return ("obj", "Kid")
     if isinstance(v, tuple):
         return ("tuple",) + tuple(plain(x) for x in v)
     if isinstance(v, list):
@@ -44,7 +50,7 @@ def declared_default(cls_name, name):
         "c": 3, "al": [1, 2], "ad": {"k": 1}, "l": [1, 2, 3], "d": {"a": 1}, "s": {1, 2},
         "fac": {"made": True}, "dyn": ["dyn", cls_name], "t": ([], 0), "u": [], "inst": [7],
         "ts": (set(), 0), "td": ({}, 0), "us": set(), "tn": ("", (set(), 0)),
-        "ps": ["ps", cls_name], "cn": [5, 6], "sh": 7,
+        "ps": ["ps", cls_name], "cn": [5, 6], "sh": 7, "kid": KidMarker(),
     }
     if cls_name == "B":
         d["l"] = [9]
@@ -119,6 +125,10 @@ class Prop:
                 op = {"k": r.choice(["add_trait", "add_trait", "remove_trait"]), "o": o,
                       "n": r.randrange(3),
                       "what": r.choice(["int", "int", "list", "list", "existing"])}
+            elif x < 0.90:
+                # a name that exists only through the class's wildcard definition 'v_': the
+                # first use of it in the whole class may be a handler registration
+                op = {"k": r.choice(["wild_reg", "wild_set", "wild_set"]), "o": o, "v": ctr[0]}
             elif x < 0.91:
                 op = {"k": "gc"}
             elif x < 0.94:
@@ -180,6 +190,12 @@ class Prop:
         def _dec(self, event):
             env.point("h:dec")
             hlog.append(("dec", id(event.object), event.name))
+        # a child object created per instance, with a '_<x>_changed_for_<trait>' listener
+        Kid = type(HasTraits)("Kid", (HasTraits,), {"q": Int(), "__module__": "simtraits.dyn"})
+        DYN.Kid = Kid
+
+        def _q_changed_for_kid(self, obj, name, old, new):
+            hlog.append(("kidq", id(self), "kid"))
         shared_ct = Int(7).as_ctrait()
 
         def _sh_default_other(self):
@@ -203,6 +219,8 @@ class Prop:
                 "cn": Any([5, 6], comparison_mode=ComparisonMode.none),
                 # a ready-made trait definition object that another class declares too
                 "sh": shared_ct,
+                "kid": Instance(Kid, ()), "_q_changed_for_kid": _q_changed_for_kid,
+                "v_": Int(7),
                 "_dyn_default": mk_dyn("A"), "_c_changed": _c_changed,
                 "_anytrait_changed": _anytrait_changed,
                 "_dec": observe("c, l, d, s, al, dyn, cn, sh")(_dec),
@@ -431,6 +449,23 @@ class Prop:
                         if e is not None:
                             raise Violation("C10.remove_trait", "remove_trait raised %r" % (e,), i)
                         target["extras"].discard(n)
+                elif k == "wild_reg":
+                    key = ("v_late", "otc", 9)
+                    if key not in target["handlers"]:
+                        h = mk_dyn_handler("otc", hlog, env, o.__dict__["_sim_serial"])
+                        target["handlers"][key] = h
+                        _, e = sut(o.on_trait_change, h, "v_late")
+                        if e is not None:
+                            raise Violation("C10.registration", "handler on a wildcard name "
+                                            "raised %r" % (e,), i)
+                        stats["itraits"] += 1
+                elif k == "wild_set":
+                    _, e = sut(setattr, o, "v_late", op["v"])
+                    got, e2 = sut(getattr, o, "v_late")
+                    if e is not None or e2 is not None or got != op["v"]:
+                        raise Violation("C10.assign", "v_late = %r: %r / reads %r (%r)"
+                                        % (op["v"], e, got, e2), i)
+                    target["wild"] = op["v"]
                 elif k == "read_extra":
                     n = "extra%d" % op["n"]
                     v, e = sut(getattr, o, n)
@@ -497,6 +532,8 @@ class Prop:
             return ("x", False) if bad else (n, True)
         if name == "cn":
             return ([n] if op.get("alt") else {"q": n}), True
+        if name == "kid":
+            return (5, False) if bad else (DYN.Kid(q=n), True)
         if name in ("al", "ad", "fac", "dyn", "ps"):
             return ([n] if op.get("alt") else {"q": n}), True
         if name == "l":
@@ -580,7 +617,7 @@ class Prop:
         del hlog[:]
 
     def cleanup(self):
-        for n in ("A", "B"):
+        for n in ("A", "B", "Kid"):
             if hasattr(DYN, n):
                 delattr(DYN, n)
 
